@@ -276,7 +276,9 @@ let () =
                                  add (Printf.sprintf "%s:%d:%d" (if al then "A" else "L") (int_of_n a) (int_of_n c))
                              | SEText s -> List.iter (fun ch -> if int_of_n ch = 10 then add "X") s) es;
                          Buffer.contents b in
-                   Printf.sprintf "sym=1 align=%d inst=%s wide=%s lines=%s" (if ok then 1 else 0) instb wideb lines)
+                   (* hypothesis of C12_wide_enough: the largest `room` among the documents of this case *)
+                   let rm = List.fold_left (fun acc (_, d, _) -> Stdlib.max acc (int_of_n (room d))) 0 items in
+                   Printf.sprintf "sym=1 align=%d inst=%s wide=%s room=%d lines=%s" (if ok then 1 else 0) instb wideb rm lines)
           | _, _ -> "sym=0")
   | "cli" ->
       each_line (fun line ->
